@@ -228,6 +228,61 @@ fn box_point(c: &BoxPair, obs: &mut Obs) -> PropResult {
     let rk = k1.relative_contrast(k2);
     ensure!(close(rk, rf::wcag_contrast(p[1], q[1]), 0.0, 1e-12), "LinLuma relative_contrast");
     preds!(k1, k2, rk, "LinLuma<f64>");
+    // ---- the older `RelativeContrast` trait (deprecated but public; the only WCAG API of the non-RGB spaces) ----
+    {
+        use palette::convert::FromColorUnclamped;
+        use palette::{Hsl, Hsluv, Hsv, Hwb, Lchuv, Okhsl, Okhwb, Oklch};
+        macro_rules! old {
+            ($name:expr, $C:ty, $tol:expr) => {{
+                let (a, b): ($C, $C) = (<$C>::from_color_unclamped(s1), <$C>::from_color_unclamped(s2));
+                old_wcag($name, a, b, want, $tol)?;
+            }};
+        }
+        old!("Srgb<f64>", Srgb<f64>, 2e-3);
+        old!("LinSrgb<f64>", LinSrgb<f64>, 2e-3);
+        old!("Rgb<AdobeRgb>", palette::rgb::Rgb<palette::encoding::AdobeRgb, f64>, 2e-3);
+        old!("Rgb<Rec2020>", palette::rgb::Rgb<palette::encoding::Rec2020, f64>, 2e-3);
+        old!("Rgb<DisplayP3>", palette::rgb::Rgb<palette::encoding::DisplayP3, f64>, 2e-3);
+        old!("Hsl", Hsl<palette::encoding::Srgb, f64>, 2e-3);
+        old!("Hsv", Hsv<palette::encoding::Srgb, f64>, 2e-3);
+        old!("Hwb", Hwb<palette::encoding::Srgb, f64>, 2e-3);
+        old!("Xyz", Xyz<D65, f64>, 2e-3);
+        old!("Yxy", Yxy<D65, f64>, 2e-3);
+        old!("Lab", Lab<D65, f64>, 2e-3);
+        old!("Lch", Lch<D65, f64>, 2e-3);
+        old!("Luv", Luv<D65, f64>, 2e-3);
+        old!("Lchuv", Lchuv<D65, f64>, 2e-3);
+        old!("Hsluv", Hsluv<D65, f64>, 2e-3);
+        old!("Oklab", Oklab<f64>, 3e-3);
+        old!("Oklch", Oklch<f64>, 3e-3);
+        old!("Okhsl", Okhsl<f64>, 3e-3);
+        old!("Okhwb", Okhwb<f64>, 3e-3);
+        old_wcag("SrgbLuma<f64>", m1, m2, wm, 1e-9)?;
+        old_wcag("LinLuma<f64>", k1, k2, rf::wcag_contrast(p[1], q[1]), 1e-12)?;
+        #[allow(deprecated)]
+        {
+            let r = palette::contrast_ratio(p[1], q[1]);
+            ensure!(close(r, rf::wcag_contrast(p[1], q[1]), 0.0, 1e-12) && r.to_bits() == palette::contrast_ratio(q[1], p[1]).to_bits(), "contrast_ratio({}, {}) = {}", p[1], q[1], r);
+        }
+    }
+    Ok(())
+}
+
+/// the deprecated trait: ratio symmetric, in [1, 21], equal to (L1 + 0.05) / (L2 + 0.05), and each of its five threshold
+/// predicates equal to "ratio >= threshold" (4.5, 3, 7, 4.5, 3) for the ratio the trait itself reports
+#[allow(deprecated)]
+fn old_wcag<C: palette::RelativeContrast<Scalar = f64> + Copy + core::fmt::Debug>(name: &str, a: C, b: C, want: f64, rel: f64) -> PropResult {
+    use palette::RelativeContrast as RC;
+    let r = RC::get_contrast_ratio(a, b);
+    let r2 = RC::get_contrast_ratio(b, a);
+    ensure!(r.to_bits() == r2.to_bits(), "{}: RelativeContrast::get_contrast_ratio is not symmetric: {} vs {} ({:?}, {:?})", name, r, r2, a, b);
+    ensure!(r >= 1.0 && r <= 21.0 * (1.0 + 1e-6), "{}: get_contrast_ratio = {} outside [1, 21] ({:?}, {:?})", name, r, a, b);
+    ensure!(close(r, want, 0.0, rel), "{}: get_contrast_ratio({:?}, {:?}) = {} but (L1+0.05)/(L2+0.05) = {}", name, a, b, r, want);
+    ensure!(RC::has_min_contrast_text(a, b) == (r >= 4.5), "{}: RelativeContrast::has_min_contrast_text disagrees with ratio {}", name, r);
+    ensure!(RC::has_min_contrast_large_text(a, b) == (r >= 3.0), "{}: RelativeContrast::has_min_contrast_large_text disagrees with ratio {}", name, r);
+    ensure!(RC::has_enhanced_contrast_text(a, b) == (r >= 7.0), "{}: RelativeContrast::has_enhanced_contrast_text disagrees with ratio {}", name, r);
+    ensure!(RC::has_enhanced_contrast_large_text(a, b) == (r >= 4.5), "{}: RelativeContrast::has_enhanced_contrast_large_text disagrees with ratio {}", name, r);
+    ensure!(RC::has_min_contrast_graphics(a, b) == (r >= 3.0), "{}: RelativeContrast::has_min_contrast_graphics disagrees with ratio {}", name, r);
     Ok(())
 }
 
